@@ -222,6 +222,31 @@ def run(ctx):
                           "%r: %r" % (case["text"], out["bad"]), dict(case, stage="composition", bad=out["bad"]))
     ctx.evaluations += len(texts)
     ctx.extra.update({"programs": len(cases) + len(texts), "disagreements_checked": disagreements, "scoring_calls_checked": nscore})
+    # ... and on synthetic partial parses with extreme rule traces (hundreds of repeats of one rule: log-odds of thousands):
+    # score / score_final are the model's log-odds + the length term, unclamped
+    import types as _types
+    nx = 0
+    for sc in (qa.CTP._DEFAULT_SCORER, _other_scorer()):
+        names = [r for r in qa.RULES][:: 5]
+        for rn in names:
+            for k in (1, 50, 400, 1500):
+                art = qa.T.Time(hour=8)
+                art.mstart, art.mend = 2, 9
+                pp = _types.SimpleNamespace(rules=tuple([rn] * k), prod=(art,))
+                txt = "x" * 40
+                pr = sc._model.predict_log_proba([[str(r) for r in pp.rules]])[0]
+                want_f = (pr[1] - pr[0]) + 1000 * math.log(len(art) / len(txt))
+                want_s = (pr[1] - pr[0]) + math.log((art.mend - art.mstart) / len(txt))
+                got_f = sc.score_final(txt, datetime(2018, 3, 7, 12, 43), pp, art)
+                got_s = sc.score(txt, datetime(2018, 3, 7, 12, 43), pp)
+                nx += 2
+                for kind, a, b in (("final-extreme-trace", got_f, want_f), ("score-extreme-trace", got_s, want_s)):
+                    if not (math.isfinite(a) and abs(a - b) <= 1e-9 * max(1.0, abs(a))):
+                        disagreements += 1
+                        ctx.violation({"stage": "score-composition", "clause": "score-is-not-log-odds-plus-length-term"},
+                                      "%s x %d: %s gives %r, log-odds + length term is %r" % (rn, k, kind, a, b),
+                                      {"stage": "composition", "rule": rn, "repeats": k, "kind": kind, "got": a, "want": b})
+    nscore += nx
     ctx.stage_counts.update({"nb-equivalence": len(cases), "score-composition-texts": len(texts), "scoring_calls": nscore})
 
 
